@@ -100,6 +100,42 @@ func (r *Run) etagForVer(res, ver int, varKey, mode string) string {
 
 func (r *Run) lmFor(res int) time.Duration { return r.resLM[res] }
 
+// ccStyled spells a Cache-Control value the way the style says: as it is, one field line per directive, or
+// with directive names in mixed case (both mean the same, RFC 9110 §5.3 and RFC 9111 §5.2).
+func ccStyled(cc, style string) []string {
+	if cc == "" {
+		return nil
+	}
+	switch style {
+	case "lines":
+		var out []string
+		for _, p := range splitList(cc) {
+			if p != "" {
+				out = append(out, p)
+			}
+		}
+		return out
+	case "case":
+		var out []string
+		for _, p := range splitList(cc) {
+			k, v, has := strings.Cut(p, "=")
+			kb := []byte(k)
+			for i := range kb {
+				if i%2 == 0 && kb[i] >= 'a' && kb[i] <= 'z' {
+					kb[i] -= 32
+				}
+			}
+			if has {
+				out = append(out, string(kb)+"="+v)
+			} else {
+				out = append(out, string(kb))
+			}
+		}
+		return []string{strings.Join(out, ", ")}
+	}
+	return []string{cc}
+}
+
 func etagMatch(inm, etag string) bool {
 	strip := func(s string) string { return strings.TrimPrefix(strings.TrimSpace(s), "W/") }
 	for _, c := range strings.Split(inm, ",") {
@@ -226,6 +262,10 @@ func (h2Body) Close() error { return nil }
 
 func (o *originRT) RoundTrip(req *http.Request) (*http.Response, error) {
 	r := o.r
+	if req.Method == "" {
+		req = req.Clone(req.Context())
+		req.Method = http.MethodGet
+	}
 	t0 := r.Sim.Now()
 	g := r.Sim.Yield("up:start")
 	if r.Sim.Aborted() {
@@ -419,8 +459,8 @@ func (r *Run) compose(g *kit.Gor, call *UpCall, req *http.Request, res, planIdx 
 	default:
 		add("Date", r.httpTime(dateT))
 	}
-	if plan.CC != "" {
-		add("Cache-Control", plan.CC)
+	for _, line := range ccStyled(plan.CC, plan.CCStyle) {
+		add("Cache-Control", line)
 	}
 	if plan.Age != "" {
 		if strings.HasPrefix(plan.Age, "dup:") {
